@@ -25,6 +25,12 @@ def worker(a):
     faulthandler.register(signal.SIGUSR1, all_threads=True, chain=False)
     os.environ["VERIF_TIER"] = a.tier
     import common
+    cov = None
+    if os.environ.get("VERIF_APICOV"):
+        # analysis aid (tools/apicov.py): which Python-level functions of the library does this check execute?
+        import coverage
+        cov = coverage.Coverage(source=[str(common.REPO / "src" / "hiten")], data_file=None, config_file=False)
+        cov.start()
     try:
         mod = importlib.import_module(a.pid.lower())
         rc = mod.main(tier=a.tier, replay=a.replay)
@@ -35,6 +41,9 @@ def worker(a):
         traceback.print_exc()
         print(f"MACHINERY-FAILURE property={a.pid}: unexpected exception", file=sys.stderr)
         rc = 2
+    if cov is not None:
+        cov.stop()
+        cov.json_report(outfile=os.environ["VERIF_APICOV"], show_contexts=False)
     sys.stdout.flush()
     sys.exit(rc)
 
